@@ -164,7 +164,11 @@ def config_dict(config, form="iso", rename=None, stale=None):
 
 
 def times(table):
-    return (np.array([TBASE + t for t in table["t"]], dtype="int64").astype("datetime64[s]")).astype("datetime64[ns]")
+    out = (np.array([TBASE + (0 if t == NA else t) for t in table["t"]], dtype="int64").astype("datetime64[s]")).astype("datetime64[ns]")
+    for i, t in enumerate(table["t"]):
+        if t == NA:
+            out[i] = np.datetime64("NaT")        # a row without a time
+    return out
 
 
 def fl(seq):
